@@ -7,8 +7,8 @@ import os
 from vlib import *
 import mbcorr
 
-PROPS = ['Props/Properties_C04.v']
-TAGS = ('VEL', 'JW', 'JTF', 'BIAS', 'ACC', 'STJ', 'STJT', 'FRJ', 'FRJT', 'JMATW')
+PROPS = ['Props/Properties_C04.v', 'Props/Properties_C04b.v']
+TAGS = ('VEL', 'JW', 'JTF', 'BIAS', 'ACC', 'STJ', 'STJT', 'FRJ', 'FRJT', 'STB', 'FRB', 'JMATW')
 
 def search(ctx, prop, n, maxb):
     exe = ctx.bdir('mb_search')
